@@ -101,6 +101,17 @@ def subchecks(tier):
             dict(op="get", key=k) for k in
             ("Weyl_invariants", "Weyl_Psi", "Psi4_lm", "Weyl_invariants",
              "gammadet", "Ktrace", "Weyl_Psi")]))
+    # a non-default centre of the extraction spheres / horizon finder: the
+    # shifted coordinates must be new arrays, not the grid object's own
+    base0 = dh[0]["cfg"]
+    for ce in (30, 2):
+        for ctr in ([0.125, -0.25, 0.0625], [-0.0625, 0.0, 0.1875]):
+            dh.append(dict(cfg=dict(base0, center=ctr, clear_every=ce,
+                                    readonly=False), ops=[
+                dict(op="get", key=k) for k in
+                ("null_ray_exp_out", "null_ray_exp_in", "gammadet",
+                 "Ktrace", "null_ray_exp_out", "Psi4_lm",
+                 "null_ray_exp_in")]))
     return [
         Sub("history", None, test, 128 if q else 2500, kind="machine",
             machine=factory, steps=30, shards=8 if q else 16, max_rounds=3, shrink_quick=False,
